@@ -11,7 +11,7 @@ RULE = ("grid = {±2^k, ±2^k±1 : k in 0..64} ∪ every integer constant in fit
         "crossed; a point is non-trivial when it lies in the property's domain (-2^63 <= min <= 0, min <= max < 2^64, "
         "negative min => max < 2^63); distinct = distinct (max, min) pairs; plus the three call sites named by the property: "
         "INDX coordinate word size for boundary coordinates in any key/axis or in the common value (must be the narrowest "
-        "sufficient width), default dtype of to_array for boundary and negative values, collapsed with boundary precedence values")
+        "sufficient width), default dtype of to_array for boundary and negative values - also asked again after the index was changed in place (set / delete item, union / difference update, update, shift_common(v), append) so that another width or signedness is needed -, collapsed with boundary precedence values")
 TRUSTED = ["translator output Gen/FitDtype.lean is cross-checked against the real fit_dtype on the whole grid"]
 ASSUMPTIONS = ["numpy.dtype(<inttype>) denotes the usual two's-complement range of that width"]
 
@@ -145,6 +145,66 @@ def call_sites(ctx):
                 out.dtype.name, min(listed), max(listed), want), desc, cls="C19-site-to_array")
         elif not np.array_equal(out.astype(object), a.astype(object)):
             ctx.oracle_fail("to_array() wrapped a value", desc, cls="C19-site-to_array")
+        # the same index object later in its life: changed in place so that another width / signedness is needed
+        # (a wider or a first negative value arrives, or the only wide value leaves), then asked for its array again
+        a2 = a.copy()
+        how = ctx.rng.choice(["setitem", "union_update", "update", "shift_common", "delitem", "difference_update", "append"])
+        newv = ctx.rng.choice([v for v in B[:16] + [-1, -129, -32769, -2**31 - 1] if v != common and v not in a2.tolist()] or [7])
+        r = ctx.rng.randrange(N)
+        try:
+            if how in ("setitem", "union_update", "update"):
+                if a2[r] != common and how != "update":
+                    ix2 = None
+                else:
+                    rows = np.array([r], dtype=np.uint32)
+                    if how == "setitem":
+                        ix[(int(newv),)] = rows
+                    elif how == "union_update":
+                        ix.union_update({(int(newv),): rows})
+                    else:
+                        ix.update({(int(newv),): rows})
+                    a2[r] = newv
+                    ix2 = ix
+            elif how == "shift_common":
+                ix.shift_common(int(newv))
+                ix2 = ix
+            elif how in ("delitem", "difference_update"):
+                big = max([int(k[0]) for k in ix] or [None], key=lambda v: abs(v)) if len(ix) else None
+                if big is None:
+                    ix2 = None
+                else:
+                    rows = ix[(big,)].copy()
+                    if how == "delitem":
+                        del ix[(big,)]
+                    else:
+                        ix.difference_update({(big,): rows})
+                    a2[a2 == big] = common
+                    ix2 = ix
+            else:
+                other = G.make_index(np.array([newv], dtype=np.int64), int(common))
+                ix.append(other)
+                a2 = np.concatenate([a2, [newv]])
+                ix2 = ix
+        except Exception as e:
+            ctx.oracle_fail("%s on the index raised %s: %s" % (how, type(e).__name__, str(e)[:60]), dict(desc, then=how), cls="C19-site-to_array")
+            continue
+        if ix2 is None:
+            continue
+        d2 = dict(desc, then=[how, int(newv), int(r)])
+        ctx.case(d2)
+        ctx.hit("site:to_array_after_" + how)
+        try:
+            out2 = ix2.to_array()
+        except Exception as e:
+            ctx.oracle_fail("to_array() after %s raised %s: %s" % (how, type(e).__name__, str(e)[:60]), d2, cls="C19-site-to_array")
+            continue
+        listed = [int(k[0]) for k in ix2] + [int(ix2.common)]
+        want = narrowest(max(listed), min(min(listed), 0))
+        if out2.dtype.name != want:
+            ctx.oracle_fail("to_array() after %s chose %s for values in [%d, %d]; the narrowest sufficient type of that signedness is %s" % (
+                how, out2.dtype.name, min(listed), max(listed), want), d2, cls="C19-site-to_array")
+        elif not np.array_equal(out2.astype(object), a2.astype(object)):
+            ctx.oracle_fail("to_array() after %s gives %s, expected %s" % (how, out2.tolist(), a2.tolist()), d2, cls="C19-site-to_array")
     for _ in range(ctx.n(60)):
         # (c) collapsed: precedence values at the boundaries must come back unchanged
         N, C = ctx.rng.randrange(1, 5), ctx.rng.randrange(1, 4)
